@@ -1791,6 +1791,12 @@ impl SocketAddress for unix::net::SocketAddr {
     }
 
     unsafe fn init(storage: MaybeUninit<Self::Storage>, length: u32) -> Self {
+        if length == 0 {
+            // For a datagram from an unnamed (unbound) socket the kernel
+            // doesn't return an address at all.
+            // SAFETY: unnamed (zero length) address is valid.
+            return unix::net::SocketAddr::from_pathname("").unwrap();
+        }
         let storage = unsafe { ptr::addr_of!((*storage.as_ptr()).0) };
         debug_assert!(length as usize >= size_of::<libc::sa_family_t>());
         let family = unsafe { ptr::addr_of!((*storage).sun_family).read() };
